@@ -250,6 +250,8 @@ class Script:
             flights.append((1, (self._group(1, tick, False) if tick else b"") + ccs
                             + self._group(1, [hs(20, rng.randbytes(12))], True)))
         truth = {0: b"", 1: b""}
+        pos = {0: sum(len(b) for d, b in flights if d == 0), 1: sum(len(b) for d, b in flights if d == 1)}
+        self.app_records = []      # (dir, offset of the record in the direction's byte stream, record length, plaintext)
         for d_, pt in self.app:
             pad = sh["pad13"](rng) if v == "tls13" and "pad13" in sh else 0
             r = self.protect(d_, 23, pt, pad)
@@ -257,6 +259,8 @@ class Script:
                 flights[-1] = (d_, flights[-1][1] + r)
             else:
                 flights.append((d_, r))
+            self.app_records.append((d_, pos[d_], len(r), pt))
+            pos[d_] += len(r)
             truth[d_] += pt
         return flights, truth
 
